@@ -2064,3 +2064,287 @@ Q(name="e2_first_packet_dedup", props=["C04"], func=r"connection/mod\.rs:\d+:1: 
   functions=["Connection::handle_first_packet (up to on_packet_authenticated)"], pre=lambda c: eq(c.inp("*_1.%d#discr" % c.field("connection/mod.rs", "Connection", "state"), I64), bv(0)), post=fpd_post,
   bounds="every first Initial: before it counts as authenticated and is processed, its packet number is inserted into the Initial space's duplicate filter - a replay of the connection-creating datagram, routed to the connection later, is then recognised like any other duplicate",
   replay=("conn_first_packet_replay_native", lambda m: [dict(pn=0), dict(pn=3)]))
+
+
+# ------------------------------------------------------------------ C04: handle_packet acts on a packet only after decryption succeeded, the duplicate filter was consulted and said "new", and not on a stateless reset (slice)
+def hpc_post(c, p):
+    st = p.p.state
+    calls = st.calls
+    pd = [i for i, x in enumerate(calls) if re.search(r"process_decrypted_packet$", x[0])]
+    if not pd:
+        return "true"
+    if len(pd) != 1:
+        return "false"
+    ip = pd[0]
+    before = calls[:ip]
+    dec = [x for x in before if re.search(r"Connection::decrypt_packet$", x[0])]
+    if len(dec) != 1:
+        # paths that enter the slice with `packet == None` construct Err(None) and cannot come here (infeasible); anything else is a defect
+        return "false"
+    num = calls[ip][1][3]
+    if num[0] != "agg":
+        return "false"
+    K = num[1] if isinstance(num[1], str) else num[1].key()
+    snap = _Snap(st, calls[ip][3]) if calls[ip][3] is not None else st
+    has_num = eq(c.ex.read_key(snap, K + "#discr", I64).t, bv(1))
+    dd = [x for x in before if re.search(r"as FnOnce<\(u64,\)>>::call_once$", x[0])]
+    out = [not_(c.inp("_6", BOOL))]                      # `_ if stateless_reset => Err(Reset)`: never processed
+    if not dd:
+        out.append(not_(has_num))                            # only unnumbered packets (there are none today) skip the filter
+    else:
+        if len(dd) != 1:
+            return "false"
+        a = dd[0][1][1]
+        ds = _Snap(st, dd[0][3]) if dd[0][3] is not None else st
+        ak = a[1] if isinstance(a[1], str) else a[1].key()
+        arg = c.ex.read_key(ds, ak + ".0", BV64).t if a[0] == "agg" else a[1].t
+        res = c.ex.read_key(st, dd[0][2], BOOL).t
+        out += [has_num, eq(arg, c.ex.read_key(snap, K + "@Some.0", BV64).t), not_(res)]
+    # counted as authenticated (ack bookkeeping, idle timer) with the same number, unless the connection is already closed
+    opa = [x for x in before if re.search(r"on_packet_authenticated$", x[0])]
+    closed = [x for x in before if re.search(r"State::is_closed$", x[0])]
+    if not opa:
+        if len(closed) != 1:
+            return "false"
+        out.append(c.ex.read_key(st, closed[0][2], BOOL).t)
+    else:
+        n2 = opa[0][1][4]
+        k2 = n2[1] if isinstance(n2[1], str) else n2[1].key()
+        if len(opa) != 1 or n2[0] != "agg" or k2 != K:
+            return "false"
+    return and_(*out)
+
+
+Q(name="e2_handle_packet_core_slice", props=["C04"], func=r"connection/mod\.rs:\d+:1: \d+:16>::handle_packet$",
+  src="connection/mod.rs", within=r"^    fn handle_packet\(", start_line=r"let decrypted = match packet \{", end_line=r"if let Err\(conn_err\) = result \{",
+  inline=[r"is_some_and", r"handle_packet::\{closure#0\}"], check_stop=True, allowed_panics=r".", ignore_untranslatable=r"^loop at",
+  functions=["Connection::handle_packet (slice: from `let decrypted = match packet` to the error-state transitions)"], pre=lambda c: "true", post=hpc_post,
+  bounds="the middle of handle_packet, executed from an ARBITRARY state: on every path that hands a packet to process_decrypted_packet, decrypt_packet ran in this call, the stateless-reset flag is off, a numbered packet went through the duplicate-filter closure with exactly its number and the filter answered `new`, and on_packet_authenticated saw the same number first unless the connection is closed; decrypt_packet, the closures and process_decrypted_packet are opaque here (other queries)",
+  replay=("conn_handle_packet_core_native", lambda m: [dict(mode=0), dict(mode=1), dict(mode=2)]))
+
+
+def hpd_post(c, p):
+    st = p.p.state
+    if p.p.outcome != "return":
+        return "true"
+    ins = p.called(r"Dedup::insert$")
+    sp = p.called(r"Header::space$")
+    ix = p.called(r"index_mut$")
+    if len(ins) != 1 or len(sp) != 1 or len(ix) != 1:
+        return "false"
+    recv, n = ins[0][1][0], ins[0][1][1]
+    ok = recv[0] == "ref" and str(recv[1]).endswith(".%d" % c.field("connection/spaces.rs", "PacketSpace", "dedup")) and n[0] == "val"
+    if not ok:
+        return "false"
+    return and_(eq(n[1].t, c.inp("_2", BV64)), eq(c.ex.read_key(st, "_0", BOOL).t, c.ex.read_key(st, ins[0][2], BOOL).t))
+
+
+Q(name="e2_handle_packet_dedup_closure", props=["C04"], func=r"::handle_packet::\{closure#1\}$",
+  functions=["the `is_duplicate` closure of Connection::handle_packet"], pre=lambda c: "true", post=hpd_post,
+  bounds="the closure handle_packet consults for duplicates: it inserts exactly the number it is given into the `dedup` filter of the space named by the packet's own header and returns the filter's answer unchanged",
+  replay=("conn_handle_packet_core_native", lambda m: [dict(mode=0), dict(mode=2)]))
+
+
+def rss_post(c, p):
+    st = p.p.state
+    if p.p.outcome != "return":
+        return "true"
+    ts = p.called(r"Send::try_stop$")
+    ev = [x for x in p.called(r"VecDeque.*::push_back") if x[1][0][0] == "ref" and str(x[1][0][1]).endswith(".%d" % c.field("connection/streams/state.rs", "StreamsState", "events"))]
+    if len(ts) > 1 or len(ev) > 1 or (ev and not ts):
+        return "false"
+    if not ts:
+        return "true"
+    code_ok = ts[0][1][1][0] == "agg" and eq(c.ex.read_key(_Snap(st, ts[0][3]), _k(ts[0][1][1][1]) + ".0", BV64).t, c.inp("_3.0", BV64))
+    if code_ok is False:
+        return "false"
+    stopped = c.ex.read_key(st, ts[0][2], BOOL).t
+    if not ev:
+        return and_(code_ok, not_(stopped))
+    snap = _Snap(st, ev[0][3])
+    e = _k(ev[0][1][1][1])
+    want = c.ex.enums["StreamEvent"].index("Stopped")
+    return and_(code_ok, stopped, eq(c.ex.read_key(snap, e + "#discr", I64).t, bv(want)),
+                eq(c.ex.read_key(snap, e + "@Stopped.0.0", BV64).t, c.inp("_2.0", BV64)),
+                eq(c.ex.read_key(snap, e + "@Stopped.1.0", BV64).t, c.inp("_3.0", BV64)))
+
+
+def _k(x):
+    return x if isinstance(x, str) else x.key()
+
+
+Q(name="e2_received_stop_sending", props=["C11"], func=r"streams/state\.rs:\d+:1: \d+:18>::received_stop_sending$",
+  functions=["StreamsState::received_stop_sending"], pre=lambda c: "true", post=rss_post, allowed_panics=r"attempt to compute",
+  bounds="every STOP_SENDING frame (any stream id, any error code) against every lookup outcome: `Send::try_stop` (covered by send_half_state_ops) is asked at most once, with this frame's error code; Event::Stopped is queued exactly when it answers that the stream was not stopped before, exactly once, carrying this stream's id and this frame's code; a stream that is not in the send map produces no event",
+  replay=("streams_stop_sending_native", lambda m: [dict(state=0), dict(state=1), dict(state=2), dict(state=3)]))
+
+
+def rak_post(c, p):
+    st = p.p.state
+    if p.p.outcome != "return":
+        return "true"
+    sf = p.called(r"StreamsState::stream_freed$")
+    rm = p.called(r"RawTable.*::remove$|remove_entry$")
+    m = re.search(r"\|in:(\*\*_\d+\.1@Some(?:\.0)+\.%d#discr)\|" % c.field("connection/streams/send.rs", "Send", "state"), " ".join(st.conds))
+    reset_sent = bv(c.ex.enums["SendState"].index("ResetSent"))
+    if not sf:
+        if rm:
+            return "false"                       # an entry is removed only together with the bookkeeping
+        return not_(eq(c.inp(m.group(1), I64), reset_sent)) if m else "true"
+    if len(sf) != 1 or len(rm) != 1 or not m or st.calls.index(rm[0]) > st.calls.index(sf[0]):
+        return "false"
+    a = sf[0][1]
+    snap = _Snap(st, sf[0][3])
+    half = a[2]
+    half_ok = half[0] == "other" and str(half[1]) == "('enum', 'StreamHalf', %d)" % c.ex.enums["StreamHalf"].index("Send")
+    if not half_ok or a[1][0] != "agg":
+        return "false"
+    return and_(eq(c.inp(m.group(1), I64), reset_sent), eq(c.ex.read_key(snap, _k(a[1][1]) + ".0", BV64).t, c.inp("_2.0", BV64)))
+
+
+Q(name="e2_reset_acked", props=["C11"], func=r"streams/state\.rs:\d+:1: \d+:18>::reset_acked$",
+  functions=["StreamsState::reset_acked (HashMap entry / remove inlined from hashbrown)"], pre=lambda c: "true", post=rak_post, allowed_panics=r"attempt to compute",
+  bounds="every acknowledged RESET_STREAM against every state of the send map: the sending half is removed and reported to stream_freed (as the Send half of exactly this stream) if and only if its entry exists and is in state ResetSent; an absent entry, a not-yet-materialised one, or one in any other state is left alone",
+  replay=("streams_reset_acked_native", lambda m: [dict(reset=0), dict(reset=1)]))
+
+
+def _path_field(c, n):
+    return "*_1.%d.%d" % (c.field("connection/mod.rs", "Connection", "path"), c.field("connection/paths.rs", "PathData", n))
+
+
+def mtg_post(c, p):
+    st = p.p.state
+    if p.p.outcome != "return":
+        return "true"
+    mg = p.called(r"Connection::migrate$")
+    eqs = [x for x in p.called(r"SocketAddr as PartialEq>::eq$") if x[1][0] == ("ref", "_3") and x[1][1][0] == "ref" and str(x[1][1][1]) == _path_field(c, "remote")]
+    idx = [x for x in p.called(r"Index<SpaceId>>::index$") if "'SpaceId', %d)" % c.ex.enums["SpaceId"].index("Data") in str(x[1][1])]
+    probing = c.inp(c.fn.debug["is_probing_packet"][0], BOOL)
+    parts = []
+    if eqs:
+        parts.append(not_(c.ex.read_key(st, eqs[0][2], BOOL).t))
+    if eqs and idx:
+        parts += [not_(probing), eq(c.inp("_4", BV64), c.inp("*%s.%d" % (idx[0][2], c.field("connection/spaces.rs", "PacketSpace", "rx_packet")), BV64))]
+    if not mg:
+        if p.called(r"update_rem_cid$"):
+            return "false"
+        return not_(and_(*parts)) if len(parts) == 3 else "true"
+    if len(mg) != 1 or len(parts) != 3 or len(p.called(r"update_rem_cid$")) != 1:
+        return "false"
+    a = mg[0][1]
+    if a[1] != ("agg", "_2") or a[2] != ("agg", "_3"):
+        return "false"
+    return and_(*parts)
+
+
+Q(name="e2_migration_trigger_slice", props=["C15"], func=r"connection/mod\.rs:\d+:1: \d+:16>::process_payload$",
+  src="connection/mod.rs", within=r"^    fn process_payload\(", start_line=r"^        if remote != self\.path\.remote$",
+  allowed_panics=r".", ignore_untranslatable=r"Transmute",
+  functions=["Connection::process_payload (slice: the migration trigger after the frame loop)"], pre=lambda c: "true", post=mtg_post,
+  bounds="the end of process_payload from an ARBITRARY state: `migrate(now, remote)` (followed by a CID change) runs if and only if the packet came from an address other than the current path's, carried a non-probing frame (`is_probing_packet` false) and has the highest packet number received so far in the Data space; the panic for a client reaching this point is outside the claim (e2_handle_event_remote_check shows clients drop such packets)",
+  replay=("conn_migration_trigger_native", lambda m: [dict(mode=0), dict(mode=1), dict(mode=2)]))
+
+
+def prs_post(c, p):
+    st = p.p.state
+    if p.p.outcome not in ("stop", "return"):
+        return "true"
+    chal = _path_field(c, "challenge")
+    val = _path_field(c, "validated")
+    tok = c.inp(c.fn.debug["frame"][0] + "@PathResponse.0", BV64)
+    eqs = [x for x in p.called(r"SocketAddr as PartialEq>::eq$") if x[1][0] == ("ref", "_3") and x[1][1][0] == "ref" and str(x[1][1][1]) == _path_field(c, "remote")]
+    same_remote = c.ex.read_key(st, eqs[0][2], BOOL).t if eqs else "false"
+    cond = and_(eq(c.inp(chal + "#discr", I64), bv(1)), eq(c.inp(chal + "@Some.0", BV64), tok), same_remote)
+    stops = [x for x in p.called(r"TimerTable::stop$") if "'Timer', %d)" % _timer_idx(c, "PathValidation") in str(x[1][1])]
+    new_val = c.ex.read_key(st, val, BOOL).t
+    new_chal = c.ex.read_key(st, chal + "#discr", I64).t
+    if stops:
+        # validated: needs the matching token from the path's own address
+        return and_(cond, new_val, eq(new_chal, bv(0)))
+    return and_(not_(cond), eq(new_val, c.inp(val, BOOL)), eq(new_chal, c.inp(chal + "#discr", I64)))
+
+
+Q(name="e2_path_response_slice", props=["C15", "C07"], func=r"connection/mod\.rs:\d+:1: \d+:16>::process_payload$",
+  src="connection/mod.rs", within=r"^    fn process_payload\(", start_line=r"Frame::PathResponse\(token\) => \{", end_line=[r"(?#loophead)for result in frame::Iter::new\(payload\)\? \{"],
+  allowed_panics=r".", check_stop=True,
+  functions=["Connection::process_payload (slice: the PATH_RESPONSE arm of the frame loop)"], pre=lambda c: "true", post=prs_post,
+  bounds="the PATH_RESPONSE arm from an ARBITRARY state: the path becomes validated (challenge cleared, PathValidation timer stopped) if and only if a challenge is outstanding, the frame carries exactly its token and the packet came from the path's own address; in every other case `validated` and the outstanding challenge are left as they were",
+  replay=("conn_path_response_native", lambda m: [dict(mode=0), dict(mode=1), dict(mode=2)]))
+
+
+def tmc_post(c, p):
+    st = p.p.state
+    if p.p.outcome != "return":
+        return "true"
+    pops = p.called(r"VecDeque.*::pop_front$")
+    rm_lru = p.called(r"LruSlab.*::remove$")
+    rm_map = p.called(r"HashMap.*::remove$")
+    some = c.ex.read_key(st, "_0#discr", I64).t
+    if not pops:
+        # nothing is handed out without being taken out of the queue
+        return "false" if (rm_lru or rm_map) else eq(some, bv(0))
+    peek = p.called(r"LruSlab.*::(peek_mut|get_mut)$")
+    if len(pops) != 1 or len(peek) != 1:
+        return "false"
+    recv = pops[0][1][0]
+    tokens = "*%s.%d" % (peek[0][2], c.field("token_memory_cache.rs", "CacheEntry", "tokens"))
+    if recv != ("ref", tokens):
+        return "false"
+    handed_out = c.ex.origin(st, "_0@Some.0") == pops[0][2] + "@Some.0"
+    if not handed_out or len(rm_lru) > 1 or len(rm_map) > 1 or bool(rm_lru) != bool(rm_map):
+        return "false"
+    if rm_map and rm_map[0][1][1] != ("ref", "*_2"):
+        return "false"
+    left = c.ex.read_key(st, tokens + ".1", BV64).t          # VecDeque { head, len, buf }: `len` after the pop
+    return and_(eq(some, bv(1)), eq(left, bv(0)) if rm_lru else not_(eq(left, bv(0))))
+
+
+Q(name="e2_token_cache_take", props=["C14"], func=r"token_memory_cache\.rs:\d+:1: \d+:11>::take$",
+  allowed_panics=r"unwrap_failed|called `Option::unwrap\(\)`",
+  functions=["token_memory_cache::State::take (VecDeque::is_empty inlined)"], pre=lambda c: "true", post=tmc_post,
+  bounds="every cache state and server name: a token is returned only after VecDeque::pop_front removed it from that server's queue, and it is that very element (so no token is handed out twice); the server's entry is dropped from the LRU slab and the lookup map exactly when its queue became empty; HashMap / LruSlab / VecDeque operations are opaque (any result)",
+  replay=("token_cache_take_native", lambda m: [dict(n=0), dict(n=1), dict(n=2), dict(n=5)]))
+
+
+def dlp_post(c, p):
+    st = p.p.state
+    if p.p.outcome != "stop":
+        return "true"
+    d = c.fn.debug
+    packet, info = d["packet"][0], d["info"][0]
+    sds = p.called(r"Instant::saturating_duration_since$")
+    if len(sds) != 1:
+        return "false"
+    a = sds[0][1]
+    ts = "*%s.%d" % (info, c.field("connection/spaces.rs", "SentPacket", "time_sent"))
+    if not (a[0][0] in ("agg", "ref") and _k(a[0][1]) in (d["now"][0], "_2") and a[1][0] in ("agg", "ref") and _k(a[1][1]) == ts):
+        return "false"
+    r = sds[0][2]
+    dsec, dns = c.ex.read_key(st, r + ".0", BV64).t, c.ex.read_key(st, r + ".1.0", ("bv", 32, False)).t
+    ld = d["loss_delay"][0]
+    lsec, lns = c.inp(ld + ".0", BV64), c.inp(ld + ".1.0", ("bv", 32, False))
+    too_old = or_("(bvugt %s %s)" % (dsec, lsec), and_(eq(dsec, lsec), "(bvuge %s %s)" % (dns, lns)))
+    pk, la, th = c.inp(packet, BV64), c.inp(d["largest_acked_packet"][0], BV64), c.inp(d["packet_threshold"][0], BV64)
+    reordered = "(bvuge %s (bvadd %s %s))" % (la, pk, th)
+    lost = or_(too_old, reordered)
+    pushes = [x for x in p.called(r"Vec.*::push") if x[1][0] == ("ref", d["lost_packets"][0])]
+    kept = p.called(r"Instant as Add<Duration>>::add$")          # next_loss_time = info.time_sent + loss_delay: the packet stays outstanding
+    probe = d["in_flight_mtu_probe"][0]
+    is_probe = and_(eq(c.inp(probe + "#discr", I64), bv(1)), eq(c.inp(probe + "@Some.0", BV64), pk))
+    if kept:
+        return "false" if pushes else not_(lost)
+    if len(pushes) > 1:
+        return "false"
+    if pushes:
+        v = pushes[0][1][1]
+        return and_(lost, not_(is_probe), eq(v[1].t, pk)) if v[0] == "val" else "false"
+    # declared lost without entering lost_packets: only the in-flight MTU probe
+    return and_(lost, is_probe, eq(c.ex.read_key(st, d["lost_mtu_probe"][0] + "#discr", I64).t, bv(1)))
+
+
+Q(name="e2_detect_lost_iteration_slice", props=["C12"], func=r"connection/mod\.rs:\d+:1: \d+:16>::detect_lost_packets$",
+  src="connection/mod.rs", within=r"^    fn detect_lost_packets\(", start_line=r"if prev_packet != Some\(packet\.wrapping_sub\(1\)\)", end_line=[r"^            prev_packet = Some\(packet\);", r"if info\.ack_eliciting && due_to_ack \{"],
+  allowed_panics=r".", check_stop=True,
+  functions=["Connection::detect_lost_packets (slice: one iteration of the scan over unacknowledged packets below the largest acknowledged one)"], pre=lambda c: "true", post=dlp_post,
+  bounds="one iteration of the loss scan from an ARBITRARY state (any packet, send time, thresholds, loop-carried variables): the packet is declared lost exactly when (RFC 9002 6.1) it was sent at least loss_delay before now or at least packet_threshold packets before the largest acknowledged one; a lost packet is pushed onto lost_packets exactly once with its own number, except the in-flight MTU probe, which is recorded as lost_mtu_probe instead; otherwise the packet stays outstanding; Instant::saturating_duration_since is opaque (asked about now and this packet's send time); the u64 overflow of packet + packet_threshold (config value near 2^64) is outside the claim",
+  replay=("conn_detect_lost_native", lambda m: [dict(age_ms=10), dict(age_ms=1124), dict(age_ms=1125), dict(age_ms=5000)]))
